@@ -1,6 +1,7 @@
 //! poulpy verification harness: shared record format, PRNG, backend selector and the generic main.
 //! Each property has its own binary (src/bin/cXX.rs) so that one property's harness never blocks another's build.
 pub mod be;
+pub mod hal;
 pub mod rec;
 
 use rec::{Out, Rec};
